@@ -51,11 +51,14 @@ def split_waterfall_generator(waterfall_fn, fchans, tchans=None, f_shift=None):
         raise ValueError('tchans value must be less than the total number of \
                           time samples in the observation')
 
-    # Note that df is negative!
-    f_start, f_stop = fch1, fch1 + fchans * df
+    # The number of windows is decided on channel indices; accumulating
+    # floating point frequencies can drop the last window.
+    num_splits = (nchans - fchans) // f_shift + 1
 
-    # Iterates down frequencies, starting from highest
-    while np.abs(f_stop - fch1) <= np.abs(nchans * df):
+    # Iterates down frequencies, starting from highest. Note that df is negative!
+    for i in range(max(num_splits, 0)):
+        f_start = fch1 + i * f_shift * df
+        f_stop = fch1 + (i * f_shift + fchans) * df
         fmin, fmax = np.sort([f_start, f_stop])
         waterfall = Waterfall(waterfall_fn,
                               f_start=fmin,
@@ -64,9 +67,6 @@ def split_waterfall_generator(waterfall_fn, fchans, tchans=None, f_shift=None):
                               t_stop=tchans)
 
         yield waterfall
-
-        f_start += f_shift * df
-        f_stop += f_shift * df
 
 
 def split_fil(waterfall_fn, output_dir, fchans, tchans=None, f_shift=None):
